@@ -194,6 +194,11 @@ def run(ctx):
     pipeline.control_part(ctx, "documented-path", words=ddw, flags=False)
     pipeline.accessors(ctx, "documented-path")
 
+    # "does not depend on history": what follows a reset starts from one control state (the micro-address and the instruction
+    # register of power-on), whatever was being executed when the reset came - the reset clause of C09, shared
+    from .. import fetchlatch
+    fetchlatch.reset_control_state(ctx, prefix="history/")
+
     table = {}
     nforms = 0
     for b in range(1, 256):
